@@ -74,6 +74,8 @@ fn main() {
             Ok(None) => writeln!(out, "UNKNOWN {}", fields[0]).unwrap(),
             Err(_) => writeln!(out, "PANIC").unwrap(),
         }
+        // one line at a time: when the code under test hangs, the output shows at which line
+        out.flush().unwrap();
     }
     out.flush().unwrap();
 }
